@@ -264,7 +264,7 @@ public:
 #endif
 	void rehash()
 	{
-		if (_n() < a.length() * 7 / 8 || a.length() > 280000)
+		if (_n() < a.length() * 7 / 8 || a.length() > 280000 || _rc() > 1)
 			return;
 
 		Array<KeyValN*> b((a.length() - ASL_HMAP_SKIP) * 8 + ASL_HMAP_SKIP);
